@@ -55,6 +55,9 @@ def transform_system(system, spec):
             nodes = list(nodes)
             if spec.get('pstyle') == 'reverse':
                 nodes.reverse()
+            elif spec.get('pstyle') == 'rotate':
+                k = spec.get('rotate_by', 1) % len(nodes)
+                nodes = nodes[k:] + nodes[:k]
             else:
                 rnd.shuffle(nodes)
             order += nodes
